@@ -2,6 +2,10 @@
 import importlib
 
 REGISTRY = {
+    "C03": {"engine": "sim.modsim", "level": "exploration",
+            "tiers": {"quick": {"runs": 1200, "wall": 300}, "thorough": {"runs": 40000, "wall": 3000}}},
+    "C04": {"engine": "sim.modsim", "level": "exploration",
+            "tiers": {"quick": {"runs": 1200, "wall": 300}, "thorough": {"runs": 40000, "wall": 3000}}},
     "C19": {"engine": "sim.world", "level": "exploration",
             "tiers": {"quick": {"runs": 480, "wall": 300}, "thorough": {"runs": 12000, "wall": 3000}}},
     "C07": {"engine": "sim.world", "level": "fault_enumeration",
@@ -32,6 +36,12 @@ META = {
     "C02": {"technique": _T + "population-world simulator: generations of select/mutate/learn with SimRng-driven Mutations, coherence invariants after every mutation round",
             "design_ref": "DESIGN.md 4 (C02)", "level_text": "seeded exploration of mutation probability vectors (incl. single-kind and degenerate), pre-/in-training mutation, mutate_elite on/off over all algorithms; after each round: optimizer parameter identity and lr, target architecture and weights, critics following the policy's architecture delta, truthful mut label, act + learn liveness",
             "level_note": "accelerator / torch.compile branches of Mutations are outside; 'same architecture change' is compared on init_dict deltas with a bound-blocked allowance"},
+    "C03": {"technique": _T + "module-chain simulator: clone-and-mutate walks over every building block and network, restart-from-constructor-description fault, bound / rebuild / effect oracles",
+            "design_ref": "DESIGN.md 4 (C03)", "level_text": "seeded walks (not enumeration) over MLP, CNN 2d/3d, LSTM, SimBa, ResNet, multi-input and the six network classes over vector/image/dict/tuple/discrete/sequence spaces, tight bounds (limits and fall-backs reached within a dozen steps) and default bounds; companion network follows the mutation dict like a critic",
+            "level_note": "the 'exhaustive for small bounds' half of the quantifier is model-checking territory and is not attempted; 'stopped by a bound' is decided conservatively with the largest step a method can draw"},
+    "C04": {"technique": _T + "module-chain simulator: same chains with perturbed weights, per-parameter common-slice comparison, no-op and clone output equality",
+            "design_ref": "DESIGN.md 4 (C04)", "level_text": "every parameter present before and after a mutation is compared on the common index range; unchanged architectures and clones are compared by bit-equal outputs in eval mode",
+            "level_note": "buffers (BatchNorm running statistics) are not 'weights'; noisy layers are compared in eval mode"},
     "C05": {"technique": _T + "population-world simulator with a recording seam on the tournament's np.random draws and a reference tournament over scheduler-assigned fitness histories",
             "design_ref": "DESIGN.md 4 (C05)", "level_text": "seeded exploration of population sizes 1-6, tournament sizes up to pop+2, evaluation windows, elitism, ties / negative / unequal-length fitness histories, configured size != len(population), repeated generations",
             "level_note": "parent identification uses faithful-copy comparison (C01 oracle); ties accept any tied agent"},
